@@ -17,6 +17,7 @@
        collector           : `ret`     (receive on the closed channel → return svg, errhrefs)
      Not modelled: ctx cancellation/5-minute timeout, the 5 s ticker (log only), imgCache.
 -/
+import D2V.Gen.Bundle
 namespace D2V.Bundle
 
 abbrev Bytes := List UInt8
@@ -24,13 +25,17 @@ abbrev Bytes := List UInt8
 def lt : UInt8 := 60
 def qt : UInt8 := 34
 
-/-- `image href="` (the regexp's literal prefix without its leading `<`) -/
-def K' : Bytes := [105, 109, 97, 103, 101, 32, 104, 114, 101, 102, 61, 34]
-def K : Bytes := lt :: K'
-/-- `data:` -/
-def dataPfx : Bytes := [100, 97, 116, 97, 58]
+/-! The literals come from the source under test (tie R: `D2V.Gen.Bundle`, regenerated on every run); the shape facts
+    the proofs need about them (`gen_K`, `gen_fmtHead`, … in `Proofs/Bundle.lean`) are re-checked against them. -/
+
+/-- `<image href="` : the regexp's literal prefix -/
+def K : Bytes := Gen.Bundle.regexPrefix
+/-- the same without its leading `<` -/
+def K' : Bytes := K.drop 1
+/-- `data:` : hrefs starting like this are skipped, and every replacement starts like this -/
+def dataPfx : Bytes := Gen.Bundle.skipPrefix
 /-- `;base64,` -/
-def b64Mark : Bytes := [59, 98, 97, 115, 101, 54, 52, 44]
+def b64Mark : Bytes := Gen.Bundle.fmtMid
 
 /-! ### the regular expression -/
 
@@ -81,7 +86,7 @@ def schemeAux : Bytes → Bytes → Bytes
 def scheme (h : Bytes) : Bytes := schemeAux [] h
 
 /-- `err == nil && strings.HasPrefix(u.Scheme, "http")` -/
-def remoteHref (h : Bytes) : Bool := [104, 116, 116, 112].isPrefixOf (scheme h)
+def remoteHref (h : Bytes) : Bool := Gen.Bundle.remoteSchemePrefix.isPrefixOf (scheme h)
 
 /-! ### filterImageElements -/
 
@@ -109,21 +114,44 @@ def replFirst (frm to : Bytes) : Bytes → Bytes
   | [] => []
   | c :: r => if frm.isPrefixOf (c :: r) then to ++ (c :: r).drop frm.length else c :: replFirst frm to r
 
+/-- the collector's `bytes.Replace(svg, from, to, n)` with the count the source under test passes: all occurrences when
+    it is negative (`gen_replaceAll`), otherwise at most one is modelled -/
+def replImpl (frm to s : Bytes) : Bytes :=
+  if Gen.Bundle.replaceN < 0 then replGo frm to 0 s
+  else if Gen.Bundle.replaceN = 0 then s
+  else replFirst frm to s
+
 def containsSub (pat : Bytes) : Bytes → Bool
   | [] => pat.isEmpty
   | c :: r => pat.isPrefixOf (c :: r) || containsSub pat r
 
 /-! ### worker: MIME fix-up, base64.StdEncoding, the replacement text -/
 
-def textXml : Bytes := [116, 101, 120, 116, 47, 120, 109, 108]
-def imageSvgXml : Bytes := [105, 109, 97, 103, 101, 47, 115, 118, 103, 43, 120, 109, 108]
-def octetStream : Bytes := [97, 112, 112, 108, 105, 99, 97, 116, 105, 111, 110, 47, 111, 99, 116, 101, 116, 45, 115, 116, 114, 101, 97, 109]
-def svgOpen : Bytes := [60, 115, 118, 103]
+def textXml : Bytes := Gen.Bundle.xmlFrom
+def imageSvgXml : Bytes := Gen.Bundle.xmlTo
+def octetStream : Bytes := Gen.Bundle.octet
+def svgOpen : Bytes := Gen.Bundle.probe
 
 /-- the two rewrites `worker` applies to the MIME type it got from the server or the sniffer -/
 def mimeFix (mime data : Bytes) : Bytes :=
   let m := replFirst textXml imageSvgXml mime
-  if m = octetStream && containsSub svgOpen data then imageSvgXml else m
+  if m = octetStream && containsSub svgOpen data then Gen.Bundle.octetTo else m
+
+/-- `html.EscapeString` on one byte -/
+def escByte (c : UInt8) : Bytes :=
+  if c = 38 then [38, 97, 109, 112, 59]            -- &amp;
+  else if c = 39 then [38, 35, 51, 57, 59]         -- &#39;
+  else if c = 60 then [38, 108, 116, 59]           -- &lt;
+  else if c = 62 then [38, 103, 116, 59]           -- &gt;
+  else if c = 34 then [38, 35, 51, 52, 59]         -- &#34;
+  else [c]
+
+def htmlEscape : Bytes → Bytes
+  | [] => []
+  | c :: r => escByte c ++ htmlEscape r
+
+/-- the MIME type as it is embedded: escaped iff the source under test escapes it -/
+def mimeOut (m : Bytes) : Bytes := if Gen.Bundle.mimeEscaped then htmlEscape m else m
 
 /-- `encodeStd` alphabet: A–Z a–z 0–9 + / -/
 def enc6 (n : Nat) : UInt8 :=
@@ -153,13 +181,13 @@ deriving Repr
 /-- `img[0]` without its `<` : `image href="H"` -/
 def Img.from' (i : Img) : Bytes := K' ++ (i.href ++ [qt])
 /-- `image href="data:M;base64,B"` (the worker's output without its `<`) -/
-def Img.to' (i : Img) : Bytes := K' ++ (dataPfx ++ (i.mime ++ (b64Mark ++ (b64std i.data ++ [qt]))))
+def Img.to' (i : Img) : Bytes := K' ++ (dataPfx ++ (mimeOut i.mime ++ (b64Mark ++ (b64std i.data ++ [qt]))))
 def Img.from_ (i : Img) : Bytes := lt :: i.from'
 def Img.to_ (i : Img) : Bytes := lt :: i.to'
 
 /-! ### runWorkers as a transition system -/
 
-def semaCap : Nat := 16
+def semaCap : Nat := Gen.Bundle.semaCap
 
 structure Pool where
   pending : List Img            -- not yet started, in the order of `imgs`
@@ -201,7 +229,7 @@ def pstep (s : Pool) : PStep → Option Pool
     | some i =>
       if !i.fails && s.ret.isNone then
         some { s with running := s.running.eraseP (hrefIs h), exiting := i :: s.exiting,
-                      svg := replGo i.from_ i.to_ 0 s.svg, delivered := s.delivered ++ [i] }
+                      svg := replImpl i.from_ i.to_ s.svg, delivered := s.delivered ++ [i] }
       else none
   | .fail h =>
     match s.running.find? (hrefIs h) with
